@@ -176,7 +176,8 @@ class PypiVersion(Version):
             # will fail validation for now.
             cls.build_value(string)
             return True
-        except packaging_version.InvalidVersion:
+        except ValueError:
+            # packaging's InvalidVersion, or int() refusing a run of digits
             return False
 
 
@@ -385,7 +386,11 @@ class RpmVersion(Version):
 class GentooVersion(Version):
     @classmethod
     def is_valid(cls, string):
-        return gentoo.is_valid(string)
+        try:
+            return gentoo.is_valid(string)
+        except ValueError:
+            # int() refusing a run of digits
+            return False
 
     def __eq__(self, other):
         if not isinstance(other, self.__class__):
@@ -419,7 +424,11 @@ class GentooVersion(Version):
 class AlpineLinuxVersion(GentooVersion):
     @classmethod
     def is_valid(cls, string):
-        return is_valid_alpine_version(string) and gentoo.is_valid(string)
+        try:
+            return is_valid_alpine_version(string) and gentoo.is_valid(string)
+        except ValueError:
+            # int() refusing a run of digits
+            return False
 
 
 class ComposerVersion(SemverVersion):
@@ -466,7 +475,11 @@ class LegacyOpensslVersion(Version):
 
     @classmethod
     def is_valid(cls, string):
-        return bool(cls.parse(string))
+        try:
+            return bool(cls.parse(string))
+        except ValueError:
+            # int() refusing a run of digits
+            return False
 
     @classmethod
     def parse(cls, string):
